@@ -42,6 +42,12 @@ class Cleanup(Interp):
             if ph is not None and ph.get('k') == 'Var':
                 st.aut['h:' + ph['name']] = 'maybe'
                 self.events += 1
+        elif q and '::' not in q and any(a is not None and a.get('k') == 'Var' and ('h:' + a['name']) in st.aut for a in e.get('args', [])):
+            # a file-local clean-up helper that is handed the output handle: it counts as the destruction if it destroys the object behind that parameter on every path
+            for i, a in enumerate(e.get('args', [])):
+                if a is not None and a.get('k') == 'Var' and ('h:' + a['name']) in st.aut and i in destroyer_params(self.prog, q, self.fn['file']):
+                    st.aut['h:' + a['name']] = 'destroyed'
+                    st.aut['purged:' + a['name']] = True
         elif c == 'destroyObject' and q.startswith('HandleManager::') and e.get('args'):
             h = canon(e['args'][0], None)
             if h.startswith('*') and ('h:' + h[1:]) in st.aut:
@@ -92,6 +98,33 @@ class Cleanup(Interp):
 
     def on_return(self, s, st):
         self.rets.append((s, st.copy(), ret_class(s, st), canon(s['e'], st.env) if s.get('e') else None))
+
+    def on_exit(self, st):
+        self.exits = getattr(self, 'exits', []) + [st.copy()]
+
+
+def destroyer_params(prog, q, file):
+    """Indices of the CK_OBJECT_HANDLE_PTR parameters of the file-local free function q whose object is destroyed (or absent) at every return of q."""
+    memo = prog.__dict__.setdefault('_destroyer_params', {})
+    if (q, file) in memo:
+        return memo[(q, file)]
+    memo[(q, file)] = set()
+    gs = [g for g in prog.fns(q) if not g.get('class') and g['file'] == file]
+    out = set()
+    if len(gs) == 1 and not unanalysable(gs[0]):
+        g = gs[0]
+        for i, pp in enumerate(g['params']):
+            if 'CK_OBJECT_HANDLE_PTR' not in (pp.get('type') or '') or not pp.get('var'):
+                continue
+            P = pp['var']['name']
+            a = Cleanup(g, prog)
+            init = St(aut={'h:' + P: 'created'}, facts={('EQ(*%s,CK_INVALID_HANDLE)' % P, False)})
+            a.go(init)
+            states = [st for s_, st, rc, rcan in a.rets] + list(getattr(a, 'exits', []))
+            if states and not any(k == 'h:' + P and v in ('created', 'maybe') for st in states for k, v in st.aut.items()):
+                out.add(i)
+    memo[(q, file)] = out
+    return out
 
 
 def leaked(st, retcanon):
